@@ -105,6 +105,17 @@ class NetModel:
                 self.props[name] = fi
             else:
                 self.methods[name] = fi
+        # properties built by module-level factories: `name = factory(CONST, ...)` in the class
+        # body, where `factory` defines a getter and returns (cached_)property(getter)
+        self._factory_env: dict[str, dict] = {}
+        for name, val in self.ci.attrs.items():
+            fac = self._factory_property(val)
+            if fac is None:
+                continue
+            kind, getter, env = fac
+            fi = FunctionInfo(self.mi.name, f"Network.{name}", getter, cls=self.ci.fq)
+            (self.cached if kind == "cached_property" else self.props)[name] = fi
+            self._factory_env[name] = env
         # node-view aliases: uncached properties returning self._graph.nodes
         self.nodeview_aliases = {"nodes"} & set(self.props) if self._is_alias(
             "nodes", "nodes") else set()
@@ -179,6 +190,35 @@ class NetModel:
                 return d, names
         return None, None
 
+    def _factory_property(self, val):
+        """('cached_property' | 'property', getter FunctionDef, {param: constant}) if `val` is a
+        call of a module-level factory that returns a property built from a nested getter"""
+        if not (isinstance(val, ast.Call) and isinstance(val.func, ast.Name)):
+            return None
+        f = self.mi.functions.get(val.func.id)
+        if f is None:
+            return None
+        inner = {n.name: n for n in f.node.body if isinstance(n, ast.FunctionDef)}
+        for st in ast.walk(f.node):
+            if isinstance(st, ast.Return) and isinstance(st.value, ast.Call):
+                kind = (dotted_name(st.value.func) or "").split(".")[-1]
+                if kind in ("cached_property", "property") and st.value.args and \
+                        isinstance(st.value.args[0], ast.Name) and st.value.args[0].id in inner:
+                    getter = inner[st.value.args[0].id]
+                    env = {}
+                    params = [a.arg for a in f.node.args.args]
+                    for prm, a in zip(params, val.args):
+                        c = self.const_of(a)
+                        if c is not None:
+                            env[prm] = c
+                    for kw in val.keywords:
+                        c = self.const_of(kw.value) if kw.arg else None
+                        if c is not None:
+                            env[kw.arg] = c
+                    set_parents(getter)
+                    return kind, getter, env
+        return None
+
     # -------------------------------------------------------------- helpers
     def _is_alias(self, prop: str, attr: str) -> bool:
         fi = self.props.get(prop)
@@ -230,7 +270,7 @@ class NetModel:
         fi = self.cached.get(propname) or self.props.get(propname)
         if fi is None:
             raise AnalysisError(f"no property Network.{propname}")
-        out = self._reads_of(fi, _stack + (propname,), {})
+        out = self._reads_of(fi, _stack + (propname,), dict(self._factory_env.get(propname, {})))
         self._reads_cache[propname] = out
         return out
 
@@ -242,9 +282,15 @@ class NetModel:
         self._env = env
         try:
             for n in ast.walk(fi.node):
-                if not (isinstance(n, ast.Attribute) and _is_self(n.value)):
+                if isinstance(n, ast.Call) and isinstance(n.func, ast.Name) and n.func.id == "getattr" \
+                        and len(n.args) >= 2 and _is_self(n.args[0]):
+                    a = self.const_of(n.args[1])
+                    if a is None:
+                        raise AnalysisError(f"{fi.qualname}: getattr(self, <not a constant>) is not modelled")
+                elif isinstance(n, ast.Attribute) and _is_self(n.value):
+                    a = n.attr
+                else:
                     continue
-                a = n.attr
                 if a in self.graph_aliases:
                     out |= self._classify_graph_use(n, fi)
                 elif a in self.cached or a in self.props:
